@@ -91,6 +91,7 @@ theorem getAt_append (r : Node) (l m : List Name) :
     | file b => simp [getAt]
     | symlink t => simp [getAt]
     | fifo => simp [getAt]
+    | special s => simp [getAt]
 
 theorem kind_setAt (r : Node) (loc : List Name) (o : Option Node) (h : loc ≠ []) :
     (setAt r loc o).kind = r.kind := by
@@ -107,6 +108,7 @@ theorem kind_setAt (r : Node) (loc : List Name) (o : Option Node) (h : loc ≠ [
     | file b => simp [setAt]
     | symlink t => simp [setAt]
     | fifo => simp [setAt]
+    | special s => simp [setAt]
 
 /-- every location that is neither `loc` nor below it looks the same after `setAt … loc …` -/
 theorem view_setAt_other (r : Node) (loc q : List Name) (o : Option Node)
@@ -147,6 +149,7 @@ theorem view_setAt_other (r : Node) (loc q : List Name) (o : Option Node)
       | file b => simp [setAt]
       | symlink t => simp [setAt]
       | fifo => simp [setAt]
+      | special s => simp [setAt]
 
 /-- the parent of `loc` resolves to a directory (vacuous for the root) -/
 def parentOk : Node → List Name → Prop
@@ -156,6 +159,7 @@ def parentOk : Node → List Name → Prop
   | .file _, _ :: _ => False
   | .symlink _, _ :: _ => False
   | .fifo, _ :: _ => False
+  | .special _, _ :: _ => False
 
 theorem getAt_setAt_some (r : Node) (loc : List Name) (x : Node) (hp : parentOk r loc) :
     getAt (setAt r loc (some x)) loc = some x := by
@@ -172,6 +176,7 @@ theorem getAt_setAt_some (r : Node) (loc : List Name) (x : Node) (hp : parentOk 
     | file b => exact absurd hp (by simp [parentOk])
     | symlink t => exact absurd hp (by simp [parentOk])
     | fifo => exact absurd hp (by simp [parentOk])
+    | special s => exact absurd hp (by simp [parentOk])
 
 theorem parentOk_setAt (r : Node) (loc : List Name) (o : Option Node) (hp : parentOk r loc) :
     parentOk (setAt r loc o) loc := by
@@ -189,6 +194,7 @@ theorem parentOk_setAt (r : Node) (loc : List Name) (o : Option Node) (hp : pare
     | file b => exact absurd hp (by simp [parentOk])
     | symlink t => exact absurd hp (by simp [parentOk])
     | fifo => exact absurd hp (by simp [parentOk])
+    | special s => exact absurd hp (by simp [parentOk])
 
 theorem getAt_setAt_none (r : Node) (loc : List Name) (h : loc ≠ []) :
     getAt (setAt r loc none) loc = none := by
@@ -207,6 +213,7 @@ theorem getAt_setAt_none (r : Node) (loc : List Name) (h : loc ≠ []) :
     | file b => simp [setAt, getAt]
     | symlink t => simp [setAt, getAt]
     | fifo => simp [setAt, getAt]
+    | special s => simp [setAt, getAt]
 
 /-! ### walk -/
 
@@ -232,6 +239,7 @@ theorem walk_found (r : Node) (loc : List Name) (n : Node) (h : walk r loc = .fo
     | file b => simp [walk] at h
     | symlink t => simp [walk] at h
     | fifo => simp [walk] at h
+    | special s => simp [walk] at h
 
 theorem walk_missing (r : Node) (loc : List Name) (h : walk r loc = .missing) :
     getAt r loc = none ∧ parentOk r loc ∧ loc ≠ [] := by
@@ -259,6 +267,7 @@ theorem walk_missing (r : Node) (loc : List Name) (h : walk r loc = .missing) :
     | file b => simp [walk] at h
     | symlink t => simp [walk] at h
     | fifo => simp [walk] at h
+    | special s => simp [walk] at h
 
 /-- nothing lives below a location that is absent or not a directory -/
 theorem view_below_none (r : Node) (loc m : List Name) (hm : m ≠ [])
@@ -319,6 +328,7 @@ theorem walk_names (r : Node) (loc : List Name) (h : (∃ n, walk r loc = .found
     | file b => simp [walk] at h
     | symlink t => simp [walk] at h
     | fifo => simp [walk] at h
+    | special s => simp [walk] at h
 
 theorem walk_of_getAt (r : Node) (loc : List Name) (n : Node) (hg : getAt r loc = some n)
     (hn : ∀ c ∈ loc, c.length ≤ NAME_MAX) : walk r loc = .found n := by
@@ -338,6 +348,7 @@ theorem walk_of_getAt (r : Node) (loc : List Name) (n : Node) (hg : getAt r loc 
     | file b => simp [getAt] at hg
     | symlink t => simp [getAt] at hg
     | fifo => simp [getAt] at hg
+    | special s => simp [getAt] at hg
 
 theorem parsePath_cwd (st st' : FS) (p : Bytes) (h : st'.cwd = st.cwd) : parsePath st' p = parsePath st p := by
   unfold parsePath; rw [h]
@@ -387,6 +398,7 @@ theorem openat_wct_ok (st st1 : FS) (p : Bytes) (h : Handle)
       | dir es => simp at hop
       | symlink t => simp at hop
       | fifo => simp at hop
+      | special s => cases s <;> cases tr <;> simp at hop
       | file b =>
         cases tr <;> simp at hop
         obtain ⟨h1, h2⟩ := hop
@@ -539,6 +551,7 @@ theorem openat_rd_ok (st st0 : FS) (p : Bytes) (h : Handle)
       cases n with
       | symlink t => simp at hop
       | fifo => simp at hop
+      | special s => cases s <;> cases tr <;> simp at hop
       | dir es =>
         simp at hop
         obtain ⟨h1, h2⟩ := hop
@@ -688,6 +701,7 @@ theorem unlinkat_rmdir_ok (st st' : FS) (p : Bytes) (h : unlinkat st p true = (s
       cases n with
       | symlink t => cases tr <;> simp at h
       | fifo => simp at h
+      | special s => simp at h
       | file b => simp at h
       | dir es =>
         simp only [Bool.not_true, Bool.false_eq_true, if_false] at h
@@ -763,6 +777,31 @@ theorem remove_dir_all_post' (st st' : FS) (p : Bytes) (h : removeDirAll st p = 
               rw [hroot, view_setAt_other _ _ _ _ hqne hq]
               exact view_setAt_other _ _ _ _ hqne hq
 
+
+/-- the masked comparisons of `Metadata` recognise exactly their own file type, for every kind of node -/
+theorem metaIsDir_stMode (k : Kind) : metaIsDir k.stMode = true ↔ k = .dir := by
+  cases k with
+  | special s => cases s <;> simp [Kind.stMode, metaIsDir] <;> decide
+  | dir => simp [Kind.stMode, metaIsDir]; decide
+  | file b => simp [Kind.stMode, metaIsDir]; decide
+  | symlink t => simp [Kind.stMode, metaIsDir]; decide
+  | fifo => simp [Kind.stMode, metaIsDir]; decide
+
+theorem metaIsFile_stMode (k : Kind) : metaIsFile k.stMode = true ↔ ∃ b, k = .file b := by
+  cases k with
+  | special s => cases s <;> simp [Kind.stMode, metaIsFile] <;> decide
+  | dir => simp [Kind.stMode, metaIsFile]; decide
+  | file b => simp [Kind.stMode, metaIsFile]; decide
+  | symlink t => simp [Kind.stMode, metaIsFile]; decide
+  | fifo => simp [Kind.stMode, metaIsFile]; decide
+
+theorem metaIsSymlink_stMode (k : Kind) : metaIsSymlink k.stMode = true ↔ ∃ t, k = .symlink t := by
+  cases k with
+  | special s => cases s <;> simp [Kind.stMode, metaIsSymlink] <;> decide
+  | dir => simp [Kind.stMode, metaIsSymlink]; decide
+  | file b => simp [Kind.stMode, metaIsSymlink]; decide
+  | symlink t => simp [Kind.stMode, metaIsSymlink]; decide
+  | fifo => simp [Kind.stMode, metaIsSymlink]; decide
 
 /-- nothing that existed was changed or removed (directories may have gained entries) -/
 def Mono (st st' : FS) : Prop :=
@@ -868,7 +907,7 @@ theorem writeAllSubPaths_mono (st : FS) (buf : Bytes) : Mono st (writeAllSubPath
             | false => exact h1.trans h2
             | true =>
               simp only
-              split <;> exact h1.trans h2
+              split <;> (try split) <;> exact h1.trans h2
           · simp only [hl, if_false]
             have h3 := mkdirOrExists_mono st2 buf
             cases hm : mkdirOrExists st2 buf with
@@ -881,7 +920,7 @@ theorem writeAllSubPaths_mono (st : FS) (buf : Bytes) : Mono st (writeAllSubPath
                 | false => exact (h1.trans h2).trans h3
                 | true =>
                   simp only
-                  split <;> exact (h1.trans h2).trans h3
+                  split <;> (try split) <;> exact (h1.trans h2).trans h3
 
 theorem createDirAll_mono (st : FS) (p : Bytes) : Mono st (createDirAll st p).1 := by
   unfold createDirAll
@@ -929,6 +968,7 @@ theorem ancestors_are_dirs (r : Node) (l m : List Name) (x : Node) (hm : m ≠ [
       | file b => simp [hg, getAt] at h
       | symlink t => simp [hg, getAt] at h
       | fifo => simp [hg, getAt] at h
+      | special s => simp [hg, getAt] at h
 
 theorem stat_dir (st : FS) (p : Bytes) (h : stat st p = .ok .dir) :
     ∃ loc tr es, parsePath st p = .ok (loc, tr) ∧ getAt st.root loc = some (.dir es) := by
@@ -950,6 +990,7 @@ theorem stat_dir (st : FS) (p : Bytes) (h : stat st p = .ok .dir) :
       | file b => cases tr <;> simp [Node.kind] at h
       | symlink t => simp at h
       | fifo => cases tr <;> simp [Node.kind] at h
+      | special s => cases tr <;> simp [Node.kind] at h
 
 theorem createDirAll_isDir_noTrailing (st st' : FS) (p : Bytes)
     (h : createDirAll st p = (st', .ok ())) (hl : p.getLast? ≠ some SLASH) : stat st' p = .ok .dir := by
@@ -987,8 +1028,14 @@ theorem createDirAll_isDir_noTrailing (st st' : FS) (p : Bytes)
                 | error e => rw [hs] at hw; simp at hw
                 | ok k =>
                   rw [hs] at hw
-                  cases k <;> simp at hw
-                  subst hw; exact hs
+                  simp only at hw
+                  by_cases hk : metaIsDir k.stMode = true
+                  · simp only [hk, if_true] at hw
+                    have hkd := (metaIsDir_stMode k).mp hk
+                    subst hkd
+                    simp at hw
+                    subst hw; exact hs
+                  · simp [hk] at hw
               | false =>
                 simp at hw
                 subst hw
@@ -1276,9 +1323,15 @@ theorem writeAllSubPaths_trailing (st st' : FS) (p : Bytes) (hl : p.getLast? = s
             | error e => rw [hs] at hw; simp at hw
             | ok k =>
               rw [hs] at hw
-              cases k <;> simp at hw
-              subst hw
-              exact Or.inr hs
+              simp only at hw
+              by_cases hk : metaIsDir k.stMode = true
+              · simp only [hk, if_true] at hw
+                have hkd := (metaIsDir_stMode k).mp hk
+                subst hkd
+                simp at hw
+                subst hw
+                exact Or.inr hs
+              · simp [hk] at hw
 
 /-- on Ok the location the path names lexically holds a directory -/
 theorem createDirAll_dirAt (st st' : FS) (p : Bytes) (hroot : ∃ es, st.root = .dir es)
